@@ -798,6 +798,21 @@ TARGETS = {
 }
 
 
+def _load_plugin_targets():
+    """extra targets live one file per property in tools/py2v_targets/<name>.py (a module-level dict TARGETS)"""
+    d = os.path.join(os.path.dirname(os.path.abspath(__file__)), "py2v_targets")
+    if not os.path.isdir(d):
+        return
+    for n in sorted(os.listdir(d)):
+        if n.endswith(".py") and not n.startswith("_"):
+            ns = {"LISTA": LISTA}
+            exec(compile(open(os.path.join(d, n)).read(), os.path.join(d, n), "exec"), ns)
+            TARGETS.update(ns.get("TARGETS", {}))
+
+
+_load_plugin_targets()
+
+
 def generate(target, repo="/repo"):
     cfg = TARGETS[target]
     path = os.path.join(repo, cfg["file"])
